@@ -670,7 +670,7 @@ func genTags(o *out, p *pkgInfo) {
 				dt[k] = v
 			}
 		}
-		var voc, mapC, n2vC, snap []string
+		var voc, mapC, n2vC, snap, snapTSV []string
 		if cl := mapLit(p, "_TagMap"); cl != nil {
 			for _, e := range cl.Elts {
 				kv := e.(*ast.KeyValueExpr)
@@ -682,6 +682,7 @@ func genTags(o *out, p *pkgInfo) {
 				name := evalStringExpr(p, kv.Value)
 				voc = append(voc, fmt.Sprintf("(%s, %s, %s)", k, nameCode(name), d))
 				snap = append(snap, fmt.Sprintf("(%s, %s, %s) /- %s -/", k, nameCode(name), d, name))
+				snapTSV = append(snapTSV, fmt.Sprintf("%s\t%s\t%s", k, name, d))
 				mapC = append(mapC, fmt.Sprintf("(%s, %s)", k, nameCode(name)))
 			}
 		}
@@ -704,6 +705,7 @@ func genTags(o *out, p *pkgInfo) {
 			chunked(&sb, "vocabC", "Nat × Nat × Nat", snap)
 			fmt.Fprintf(&sb, "end Rscp.Snapshot\n")
 			os.WriteFile(snapshotPath, sb.Bytes(), 0o644)
+			os.WriteFile(strings.TrimSuffix(snapshotPath, ".lean")+".tsv", []byte(strings.Join(snapTSV, "\n")+"\n"), 0o644)
 		}
 	}
 	fmt.Fprintf(b, "/-- `secretTags` (tag_issecret.go) -/\ndef secretTags : List Nat := [%s]\n\n", strings.Join(items, ", "))
